@@ -73,3 +73,25 @@ Proof.
   replace (zlen blk >? ks - 2) with false by (symmetry; rewrite Z.gtb_ltb; apply Z.ltb_ge; lia).
   rewrite ztake_app_exact by exact Hbody. unfold body. rewrite map_shift_inv. reflexivity.
 Qed.
+
+From Opcua Require Import Proofs.CryptoBlocksProofs.
+
+(* the asymmetric toy pair (Alice: local key la, remote key lb; Bob the other way round) is a `link` *)
+Lemma toy_asym_link la lb minpad ks kr :
+  0 <= la -> 2 <= minpad -> minpad < lb <= 65536 ->
+  link (toy_asym_algo la lb minpad ks kr) (toy_asym_algo lb la minpad kr ks).
+Proof.
+  intros Hla Hmp Hlb. constructor; cbn [toy_asym_algo a_sign a_verify a_enc a_dec a_sig a_rsig a_plain a_block].
+  - intros m. eexists. split; [reflexivity | apply zlen_toy_mac; lia].
+  - intros m s H. injection H as <-. unfold toy_verify. apply bytes_eqb_refl.
+  - intros p Hp Hrem. pose proof (zlen_nonneg p) as Hp0. unfold toy_asym_enc, toy_asym_dec, rsa_encrypt, rsa_decrypt.
+    destruct (blockwise_roundtrip (toy_rsa_enc1 lb ks) (toy_rsa_dec1 lb ks) lb (lb - minpad) ltac:(lia) ltac:(lia)
+                (fun blk Hb => toy_rsa_block lb ks blk ltac:(lia) ltac:(lia)) p) as (c & Hc & Hlen & Hdec).
+    exists c. rewrite Hc, Hdec. cbn [res_opt]. repeat split.
+    rewrite Hlen. rewrite Z.rem_mod_nonneg in Hrem by lia.
+    rewrite (nblocks_aligned (lb - minpad) ltac:(lia) (zlen p) ltac:(lia) Hrem).
+    rewrite Z.quot_div_nonneg by lia. reflexivity.
+  - reflexivity.
+  - reflexivity.
+  - destruct (Z.gtb_spec lb 256); lia.
+Qed.
